@@ -96,6 +96,9 @@ def check_C04(run):
     res = stage_sql_cases(run, cases, name="sql_adv")
     stage_judge_sql(run, res, "C04", name="judge_sql_adv")
     sql_structure(run, "C04")
+    # the driver model itself, model checked: the model-level C04 over every tree of depth <= 2
+    stage_mc_render(run, ["feq", "feqfloat", "feqq", "fwild", "fmrange"] if run.tier == "quick"
+                    else ["feq", "feqfloat", "feqq", "fwild", "fre", "fmrange", "flist"])
     run.exhaustive = True
     run.notes.append("leaf cases (with a same-kind value substitution each), adversarial values, and generated trees (seed %d)" % run.seed)
 
